@@ -166,10 +166,6 @@ Proof.
   - rewrite raw_canvas. unfold names. rewrite map_app. simpl. rewrite last_app_ne by discriminate. reflexivity.
 Qed.
 
-Lemma last_set_trace E T c tr :
-  names (snd (raw_steps E T (set_trace c tr))) <> [] -> True.
-Proof. trivial. Qed.
-
 Theorem listing_nonempty E m c c1 steps :
   get_steps E (tables_of m) (after_parse (tables_of m) c) false = (c1, Some steps) ->
   steps <> [] /\ last (names steps) [] = str_end.
